@@ -283,6 +283,37 @@ func c09Scenarios(tier string) []*Scenario {
 				}
 			}})
 	}
+	// a running pod whose annotation names an address that is recorded nowhere (its object was lost while galaxy-ipam was down);
+	// an administrator reserves that address, and the periodic pod-IP sync runs before or after the reservation's event
+	out = append(out, &Scenario{Name: "admin-reserve/vs-syncpodips", Class: "admin/reserve", Cfg: world.Config{Pools: c09Pools([]string{"10.10.1.1~10.10.1.2"}, nil), Nodes: nodesN1N2},
+		Bounds: b, Weight: 3,
+		Build: func(w *world.World) []Thread {
+			w.Configs = []string{w.ConfigMap}
+			sts.setWorkload(w, 3)
+			x := sts.pod(0)
+			w.CreatePod(x)
+			mustSchedule(w, x.Key())
+			w.SetPhase(x.Key(), corev1.PodRunning)
+			ip := w.Bindings[0].IPs[0]
+			for n := range w.FIPs {
+				delete(w.FIPs, n)
+			}
+			if err := w.Restart(); err != nil {
+				panic(err)
+			}
+			w.Bindings = nil // (the binding belongs to an earlier life of the store: nothing records it any more)
+			done := false
+			return []Thread{
+				{"admin", func() { _ = w.Reserve(ip); done = true }},
+				{"informer", informerThread(w, &done)},
+				{"syncpodips", func() { w.SyncPodIPs() }},
+			}
+		},
+		Final: func(w *world.World) {
+			for len(w.Pending) > 0 {
+				w.Deliver(0)
+			}
+		}})
 	// a pod that is already running with an annotation IP (pod-IP sync) vs. reload
 	out = append(out, &Scenario{Name: "reload-add-ip/vs-syncpodips", Class: "reload/add-ip", Cfg: base, Bounds: b, Weight: 2,
 		Build: func(w *world.World) []Thread {
